@@ -253,8 +253,9 @@ def setup():
     import types
     import uuid
     from prettyprinter import register_pretty, pretty_call, comment, trailing_comment, install_extras
-    install_extras(include=['dataclasses', 'ipython_repr_pretty'] + (['attrs'] if APoint else []),
-                   raise_on_error=True)
+    # one at a time: install_extras walks a *set* of names, whose order would depend on PYTHONHASHSEED
+    for extra in ['dataclasses', 'ipython_repr_pretty'] + (['attrs'] if APoint else []):
+        install_extras(include=[extra], raise_on_error=True)
 
     # by-name registrations: pending until first use inside a run
     @register_pretty(_key(HSubA.__mro__[1]))
